@@ -333,12 +333,14 @@ def cp2k_block(ctx, d, fails):
         lines.append(" ".join(["cp2ktext", l1hex(text)] + cp2k_tokens(upd) + ["0"]))
         meta.append((text, upd, out, code))
     outs = ctx.driver(lines) if ctx._driver_ok else None
+    if outs is not None:
+        from props import c19_variant as V
+        V.settle(ctx, PART, [({"fn": "update_cp2k_input", "text": m[0], "update": repr(m[1])}, m[3], line, o)
+                             for m, line, o in zip(meta, lines, outs)])
     for i, (text, upd, out, code) in enumerate(meta):
         odd = any(ch in text for ch in L1_WS)
         ctx.count(1, branch="uni:cp2k-" + ("non-ascii-white-space" if odd else "latin-1-letters-only"))
         ctx.distinct(("uni-cp2k", text, repr(upd)))
-        if outs is not None and code != outs[i]:
-            ctx.disagree({"part": PART, "fn": "update_cp2k_input", "text": text, "update": repr(upd)}, code, outs[i])
         # the property on the real code: keywords that are single tokens (no white space of any kind) edit idempotently
         toks_ok = all(k and not isws(k) for v in upd.values() for k in v.get("data", {}))
         if out is not None and toks_ok:
